@@ -46,6 +46,12 @@ Definition cell_wf (h : id -> option cell) (c : cell) : Prop :=
   end.
 Definition dicts_wf (h : heap) : Prop := forall x c, cells h x = Some c -> cell_wf (cells h) c.
 
+(* C19's invariant: a sharding spec is about one of the node's own inputs or outputs *)
+Definition wf_dev (h : heap) : Prop :=
+  forall x n, cells h x = Some (CNode n) ->
+  forall d sp y, In d (n_dev n) -> In sp (dc_specs d) -> sp_value sp = Some y ->
+                 In (Some y) (n_inputs n) \/ In y (n_outputs n).
+
 Lemma vref_of_vcanon h h' c o : vcanon h c = vcanon h' o -> vref h c = vref h' o.
 Proof.
   unfold vcanon, vref. destruct (h c) as [[]|]; destruct (h' o) as [[]|]; intros H; try discriminate;
@@ -78,7 +84,8 @@ Section Good.
     g_own : forall x c, n0 <= x -> cells (hp st) x = Some c -> forall y, In y (own_links c) -> n0 <= y;
     g_links : forall x c, n0 <= x -> cells (hp st) x = Some c ->
                           forall y, In y (links c) -> n0 <= y \/ allowed st y;
-    g_passed : forall v, In v (passed st) -> allow = true
+    g_passed : forall v, In v (passed st) -> allow = true;
+    g_kept : wf_dev h0 -> forall y, In y (kept st) -> In y (passed st)
   }.
 
   Lemma good_init : good (init_st h0).
@@ -90,6 +97,7 @@ Section Good.
     - intros x c Hx Hc. apply Hcl0 in Hc. lia.
     - intros x c Hx Hc. apply Hcl0 in Hc. lia.
     - intros v [].
+    - intros _ y [].
   Qed.
 
   Lemma old_cell st x : good st -> x < n0 -> cells (hp st) x = cells h0 x.
@@ -201,6 +209,7 @@ Section Good.
         * destruct (g_links _ G x c' Hx Hc y Hy) as [K|K]; [left; exact K|right].
           eapply allowed_le; [exact L|exact K].
       + apply (g_passed _ G).
+      + apply (g_kept _ G).
     - unfold FR; simpl. lia.
     - reflexivity.
     - simpl. apply upd_same.
@@ -255,13 +264,15 @@ Section Good.
     - exact (g_own _ G).
     - exact (g_links _ G).
     - exact (g_passed _ G).
+    - exact (g_kept _ G).
   Qed.
 
   Lemma good_ghost st p k :
     good st -> incl (passed st) p -> incl (kept st) k -> (forall v, In v p -> allow = true) ->
+    (wf_dev h0 -> forall y, In y k -> In y p) ->
     good (St (hp st) (vmap st) p k).
   Proof.
-    intros G Hp Hk Ha. constructor; simpl.
+    intros G Hp Hk Ha Hkp. constructor; simpl.
     - apply G.
     - apply G.
     - exact (g_vmap _ G).
@@ -269,6 +280,7 @@ Section Good.
     - intros x c' Hx Hc y Hy. destruct (g_links _ G x c' Hx Hc y Hy) as [K|K]; [left; exact K|right].
       destruct K as [K1 K2]. split; [exact K1|]. simpl. destruct K2 as [K2|[K2|[K2|K2]]]; auto.
     - exact Ha.
+    - exact Hkp.
   Qed.
 
   (* ---------- leaf functions *)
